@@ -24,6 +24,10 @@ def store_subjects(tier, purpose="general"):
         out.append(S("rps", cap, live=L, prios=pr))
     out.append(S("rps", 1, live=3, prios=pr))          # three waiting requests: a middle position in the queue exists
     out.append(S("rpfs", 1, live=3, prios=[0, 1], drain=1, age_cap=0.5))
+    # a head whose filter matches nothing can hide servable requests behind it
+    out.append(S("rpfs", 2, live=3, prios=[0], filters=[None, "blue"], colors=["red", "blue"], drain=1, age_cap=0.5, notime=1))
+    out.append(S("rpfs", 1, live=3, prios=[0], filters=[None, "blue", "red"], colors=["red", "blue"], drain=1, age_cap=0.5, notime=1))
+    out.append(S("rpfs", 2, live=2, prios=[0], filters=[None, "blue"], colors=["red", "blue"], td=1, drain=1, age_cap=2))
     # filter store: priorities, user filters, trigger delay; with and without explicit kernel stepping
     out.append(S("rpfs", 2, live=2, prios=[0, 1], drain=1, age_cap=0.5))
     out.append(S("rpfs", 2, live=2, prios=[0], filters=[None, "blue"], colors=["red", "blue"], drain=1, age_cap=0.5))
@@ -72,7 +76,9 @@ def conveyor_store_subjects(tier, eager=False):
     kw = {"eager_get": 1} if eager else {}
     out = [S("sconv", 2, live=2, drain=1, age_cap=3, grid=1, acc=1, delay=1, **kw),
            S("cconv", 2, live=2, drain=1, age_cap=3, grid=1, acc=1, **kw),
-           S("cconv", 2, live=2, drain=1, age_cap=3, grid=1, acc=0, **kw)]
+           S("cconv", 2, live=2, drain=1, age_cap=3, grid=1, acc=0, **kw),
+           S("sconv", 3, live=2, drain=1, age_cap=3, grid=1, acc=0, delay=1, **kw),
+           S("cconv", 3, live=2, drain=1, age_cap=3, grid=1, acc=1, **kw)]
     if not q:
         out += [S("sconv", 3, live=2, drain=1, age_cap=4, grid=1, acc=0, delay=1, prios=[0, 1], **kw),
                 S("cconv", 3, live=2, drain=1, age_cap=4, grid=0.5, acc=1, **kw)]
